@@ -41,6 +41,7 @@ let run () =
     | ws ->
       let xo = match ws with
         | ["put"; k; v] -> Some (XBase (Put (int_of_string k, val_of_hex v)))
+        | ["putf"; k; v] -> Some (XBase (Put (int_of_string k, val_of_hex v @ [nat_of_int 0])))   (* putstrf(key, "%s", text): the text and its terminator *)
         | ["get"; k] -> Some (XBase (Get (int_of_string k)))
         | ["del"; k] -> Some (XBase (Del (int_of_string k)))
         | ["delidx"; i] -> Some (XDelIdx (nat_of_int (int_of_string i)))
